@@ -124,7 +124,7 @@ theorem v2_decode_spec_encode (frame ts filler : Bytes) (id : Nat) (hts : ts.len
     simp [Spec.V2.encode, spec_body_eq, List.append_assoc]
   unfold packetDecode
   rw [henc, packetCheck_shape _ _ _ hH (md5_length _) h2 hl (by unfold sign; rw [signKey_eq])]
-  exact decryptAes_encryptAes frame
+  simp only [decryptAes_encryptAes frame]
 
 /-- PKCS7: every padding length 1..16 occurs and the padded length is a multiple of the block -/
 theorem pkcs7_facts (d : Bytes) :
